@@ -54,6 +54,9 @@ After(c, fs, m) == {f \in fs : ~Collectable(c, m, f.id)}
 RECURSIVE Expect(_, _, _, _)
 Expect(c, fs, ph, i) == IF i > Len(ph) THEN <<>> ELSE LET nf == After(c, fs, ph[i]) IN <<nf>> \o Expect(c, nf, ph, i + 1)
 AllFiles == {[dir |-> d, id |-> i] : d \in {"state", "ip"}, i \in Ids}
-Vectors == {[ctr |-> c, phases |-> ph, expect |-> Expect(c, AllFiles, ph, 1)] : c \in [Ids -> States], ph \in Phases}
+\* porterr: containers whose port clean-up callback returns an error (e.g. an unreadable port file): what a dead
+\* container left behind is removed all the same
+Vectors == {[ctr |-> c, phases |-> ph, porterr |-> pe, expect |-> Expect(c, AllFiles, ph, 1)] :
+              c \in [Ids -> States], ph \in Phases, pe \in {{}, {CHOOSE i \in Ids : TRUE}, Ids}}
 ASSUME EmitVectors => JsonSerialize(OutFile, [n |-> Cardinality(Vectors), vectors |-> Vectors])
 =============================================================================
